@@ -26,7 +26,7 @@ func c12(c *vc.Ctx) {
 	depth := 2
 	coreOnly := vc.Pick(c, true, false)
 	unclosedLen := vc.Pick(c, 2, 3)
-	stride := uint32(vc.Pick(c, 400, 4000))
+	stride := uint32(vc.Pick(c, 8000, 60000))
 	progs := c12Programs(depth, coreOnly)
 	c.Rule = fmt.Sprintf("(a) every token sequence of length <= %d over the %d-token shared core alphabet %q joined by single spaces (a here-document token gets its body after the next newline token or at the end); "+
 		"(b) the %d programs of the token-level shared core grammar (c12_gen.go: %d templates, %d word atoms, nesting depth %d, nested statements restricted to the core subset: %v) and every single-token mutation of each (delete token i, duplicate it, swap i/i+1, insert each alphabet token at every position), deduplicated by text; "+
@@ -124,7 +124,7 @@ func c12(c *vc.Ctx) {
 		}
 		return fails
 	}
-	complete := vc.RunBatch(c, 6000, gen, run)
+	complete := vc.RunBatch(c, 40000, gen, run)
 	c.Finish(complete)
 }
 
@@ -204,17 +204,29 @@ func c12Judge(c *vc.Ctx, sh c12Shell, lang string, batch []c12Case, idx []int, f
 		}
 		c.Count("real_processes_"+lang, np)
 		c.Count("wrapper_accepts_validated_in_bulk_"+lang, len(acc))
-		// validation 2: strided in-process rejects; and every divergence from the parser
+		// validation 2: strided in-process rejects; and divergences from the
+		// parser: every unclassified one (up to 40 per batch and language),
+		// the first 2 of each class per batch (processes are expensive here)
+		nconf := map[string]int{}
 		for _, k := range wrapped {
 			if confirmed[k] {
 				continue
 			}
 			diverges := (perr[k] == "") != accept[k]
 			onStride := !accept[k] && c12Hash(srcs[k])%stride == 0
-			if !diverges && !onStride {
-				continue
+			if diverges {
+				toks := batch[idx[k]].Toks
+				if c12Intentional(lang, toks, srcs[k], perr[k], accept[k]) != "" {
+					diverges = false
+				} else {
+					cl := c12Class(lang, toks, srcs[k], perr[k], accept[k])
+					nconf[cl]++
+					if (cl != "" && nconf[cl] > 2) || nconf[cl] > 40 {
+						diverges = false
+					}
+				}
 			}
-			if diverges && c12Intentional(lang, batch[idx[k]].Toks, srcs[k], perr[k], accept[k]) != "" {
+			if !diverges && !onStride {
 				continue
 			}
 			was := accept[k]
